@@ -256,7 +256,7 @@ def status_name(rc):
 def judge(v, mutants, preds, obs):
     """Compare observation with prediction. Returns counters and sample list."""
     stats = {"compared": 0, "agree": 0, "excluded_ambiguous": 0, "by_status": {}, "by_intent_mismatch": [],
-             "rejected_runs_that_wrote": {}}
+             "rejected_runs_that_wrote": {}, "matrix": {}}
     samples = []
     for m in mutants:
         p = preds.get(m["id"])
@@ -272,6 +272,9 @@ def judge(v, mutants, preds, obs):
             stats["excluded_ambiguous"] += 1
             continue
         stats["compared"] += 1
+        row = stats["matrix"].setdefault(m["intent"], {})
+        cell = "/".join(x for x in (m["oc"], m["bc"], m["var"]) if x)
+        row[cell] = row.get(cell, 0) + 1
         stats["by_status"][str(p["status"])] = stats["by_status"].get(str(p["status"]), 0) + 1
         behaviour = {"file": m["file"], "desc": m["desc"], "intent": m["intent"], "oc": m["oc"], "bc": m["bc"],
                      "var": m["var"], "text": m["text"], "predicted": p, "observed": o}
@@ -338,6 +341,10 @@ def run(tier):
         "excluded_two_rules": stats["excluded_ambiguous"],
         "rejected_runs_that_wrote_files_by_status": stats["rejected_runs_that_wrote"],
         "compared_by_predicted_status": stats["by_status"],
+        "compared_by_rule_and_site": stats["matrix"],
+        "not_covered": ["test statements (their own consistency rules)", "rule 23 (a less specific version next to a more specific one inside ONE tag list) - in neither the documents nor the statement of C16",
+                        "indirect recursion (A contains B contains A)", "upcast to a SMALLER integer type (ill-formed by lang-spec, but no diagnostic is named for it)",
+                        "an if-variable that is no declaration / no definer", "syntax errors (the generator panics with exit 101 by design of its pest front-end)"],
         "model_differs_from_label": stats["by_intent_mismatch"][:40],
         "unmodified_tree": {"rc": base["rc"], "wall": base["wall"], "writes": base["writes"], "removes": base["removes"]},
         "known_finding_hits": v.known_hits,
